@@ -29,8 +29,10 @@ T = "MetadorModel.C13."
 LEAN = dict(
     modules=["MetadorModel.Props.C13"],
     theorems=[T + n for n in [
-        "isSubtype_sound", "child_valid_in_parent", "undeclared_widening_refused", "qualhashsum_not_subtype",
-        "installedStrings_sound_except", "isSubtype_refl", "optional_not_subtype", "literal_superset_not_subtype"]],
+        "isSubtype_sound", "Sub_refl", "child_valid_in_parent", "child_in_Sub_parent", "undeclared_widening_refused",
+        "checked_overrides_are_subtypes", "installedStrings_sound_except", "qualhashsum_not_subtype",
+        "classTable_unsound_with_qualhashsum", "optional_not_subtype", "literal_subtype_iff", "literal_superset_not_subtype",
+        "legacy_crash_breaks_union_subtype"]],
     drivers=["drv_cod"],
 )
 
@@ -652,6 +654,8 @@ def run(ctx):
     sub = [c for c in corpus if c["kind"] == "sub"] + gen_sub_cases(ctx)
     ctx.correspond("is_subtype", MOD, sub, lines, "drv_cod", compare=compare, timeout=300)
     acc = [c for c in corpus if c["kind"] == "acc"] + gen_acc_cases(ctx)
+    C12.ensure_nf(ctx, acc, report=False)
+    report_crashes(ctx)
     ctx.correspond("accepts", MOD, acc, lines, "drv_cod", compare=compare, timeout=120)
     ovr = [c for c in corpus if c["kind"] == "ovr"] + gen_ovr_cases(ctx)
     ctx.correspond("check_types", MOD, ovr, lines, "drv_cod", compare=compare, timeout=120)
